@@ -299,6 +299,9 @@ func replyDatagram(reqWire, secret []byte, code int, attrs []avp) []byte {
 	if err != nil {
 		panic("bad generated reply")
 	}
+	// the Response Authenticator is computed here from RFC 2865 §3 / RFC 2866 §3, not taken from the
+	// library's Encode: a self-consistent change of Encode and IsAuthenticResponse must not go unnoticed
+	signReply(w, reqWire[4:20], secret)
 	return w
 }
 
